@@ -1,6 +1,6 @@
 """shared recognisers for the cw3 multisigs"""
 from ..engine import show
-from ..idioms import storage_items, loaded_from, walk, update_base, field_of
+from ..idioms import storage_items, loaded_from, walk, update_base, field_of, possible_variants
 
 SENDER = ("field", ("param", "info"), "sender")
 BLOCK = ("field", ("param", "env"), "block")
@@ -51,3 +51,23 @@ def is_expired_cond(p, expires, pol, before=None):
         if c[0][0] == "call" and c[0][1] == IS_EXPIRED and c[0][2] == (expires, BLOCK) and c[1] is pol:
             return True
     return False
+
+
+def cs_term(base):
+    return ("call", CS, (base, BLOCK))
+
+
+def cs_is_passed(ctx, p, base, before=None):
+    """the path decided current_status(base, env.block) == Passed (==, match, matches!, ensure! ...)"""
+    return possible_variants(ctx, p, cs_term(base), STATUS, before) == {"Passed"}
+
+
+def cs_not_passed(ctx, p, base, before=None):
+    pv = possible_variants(ctx, p, cs_term(base), STATUS, before)
+    return pv is not None and "Passed" not in pv
+
+
+def stored_status_in(ctx, p, base, allowed, before=None):
+    """the path decided that the stored status of `base` lies within `allowed`"""
+    pv = possible_variants(ctx, p, ("field", base, "status"), STATUS, before)
+    return pv is not None and pv <= set(allowed)
